@@ -526,7 +526,7 @@ pub fn fraccion_renovable_acs_nrb(ep: &EnergyPerformance) -> Result<f32, EpbdErr
                 if f_tot > 0.0 {
                     let f_cgn_ren_A = ep
                         .wfactors
-                        .compute_cgn_exp_fP_A(&ep.components, true)?
+                        .compute_cgn_exp_fP_A(&ep.components, Some(Carrier::is_nearby))?
                         .unwrap_or_default()
                         .ren;
                     println!("f_cgn_ren_A: {f_cgn_ren_A:.3}, f_tot: {f_tot:.3}");
